@@ -21,7 +21,7 @@ def norm_attr(a):
 
 def norm_obj(o, intern=None):
     sub = {"Certificate": o.get("ctype", "X_509"), "SecretData": o.get("dtype", "PASSWORD"),
-           "OpaqueData": o.get("odtype", "NONE")}.get(o["type"], "NA")
+           "OpaqueData": o.get("odtype", "NONE"), "SplitKey": A.prime_class(o.get("prime"))}.get(o["type"], "NA")
     iskey = o["type"] in ("SymmetricKey", "PublicKey", "PrivateKey", "SplitKey")
     return {"type": o["type"], "val": o.get("val", ""), "alg": o.get("alg") or "NA", "len": o.get("len") or 0,
             "fmt": (o.get("fmt") or "RAW") if iskey else "NA", "sub": sub, "wrapped": bool(o.get("wrap")),
